@@ -125,6 +125,17 @@ func TestC04_Controlled(t *testing.T) {
 		if len(res.Delivered) != len(res.ExpDelivered) {
 			t.Fatalf("VERIF-VIOLATION C04: %d items delivered, the queue model delivers %d (submitted %d, model discards %d)\n%s", len(res.Delivered), len(res.ExpDelivered), len(res.Submitted), res.ExpDiscards, desc)
 		}
+		if res.HasRestricted {
+			var wantRaw []int64
+			for _, id := range res.Delivered {
+				if res.RawIDs[id] {
+					wantRaw = append(wantRaw, id)
+				}
+			}
+			if !eq(res.Restricted, wantRaw) {
+				t.Fatalf("VERIF-VIOLATION C04: the appender reference with range [ERROR,MAX) received %d items %v; it must receive exactly the delivered raw writes %v (every submitted event is INFO)\n%s", len(res.Restricted), tailIDs(res.Restricted), tailIDs(wantRaw), desc)
+			}
+		}
 		if setup.Second && !eq(res.Delivered, res.Delivered2) {
 			t.Fatalf("VERIF-VIOLATION C04: the two appenders of the logger received different items: %v vs %v\n%s", res.Delivered, res.Delivered2, desc)
 		}
@@ -178,4 +189,12 @@ func TestC04_Random(t *testing.T) {
 			t.Fatalf("VERIF-VIOLATION C04: Block policy with a non-zero discard counter\nsetup: %s", s)
 		}
 	})
+}
+
+
+func tailIDs(a []int64) []int64 {
+	if len(a) > 10 {
+		return a[len(a)-10:]
+	}
+	return a
 }
